@@ -240,7 +240,7 @@ def run_realpool(case):
                         continue
                     specs.append([(centres[i], sz[i], sp, (1.0,) + wf if False else ([1.0] + list(wf))[i]) for i in range(nb)])
     opts = list(itertools.product([True, False], [None, 1, 2, 3], [0.5, 1.0, 2.0])) if case["thorough"] else \
-        [(True, None, 1.0), (False, None, 1.0), (True, 2, 1.0), (True, None, 0.5), (False, 3, 2.0), (True, 1, 1.0)]
+        [(True, None, 1.0), (False, None, 1.0), (True, 2, 1.0), (False, 3, 2.0)]
     n = 6
     for si, spec in enumerate(specs):
         U, w = _blob_pool(d, spec)
@@ -392,10 +392,12 @@ def run_cadence(case):
     res.bump("labels_without_training_points", getattr(p, "notes_missing", 0))
     # resume from every checkpoint into a fresh sampler (fresh, unfitted clusterer)
     cks = sorted((k for k in fs.files if k.endswith(".state") and not k.endswith("_final.state")), key=lambda s: int(s.split("_")[-1].split(".")[0]))
-    for path in cks:
+    for ci, path in enumerate(cks):
         k = int(path.split("_")[-1].split(".")[0])
         if case.get("resume_k") is not None and case["resume_k"] != k:
             continue
+        if not case.get("all_checkpoints", True) and case.get("resume_k") is None and ci >= 2 and ci % 2:
+            continue  # quick: the first two checkpoints and every second one afterwards
         rcfg = dict(cfg)
         rcfg.pop("save_every")
         q = Probe(rcfg, base=case["base"], fs=fs, iter_offset=k, monitors=[coherence_monitor()])
@@ -454,7 +456,7 @@ def plan(ctx):
                     for cap in (None, 1, 2):
                         if not th and (hash((ce, ratio, kern, norm, cap)) + ctx.seed) % 3:
                             continue
-                        c.append({"kind": "cadence", "base": ctx.seed, "cfg": dict(clustering=True, cluster_every=ce, ess_ratio=ratio, sample=kern, normalize=norm,
+                        c.append({"kind": "cadence", "base": ctx.seed, "all_checkpoints": th, "cfg": dict(clustering=True, cluster_every=ce, ess_ratio=ratio, sample=kern, normalize=norm,
                                                                                  n_max_clusters=cap, target="unequal" if (ce + int(ratio)) % 2 else "bimodal",
                                                                                  n_particles=32 if (ce + int(ratio)) % 2 else 24, n_total=96)})
     ctx.bounds.update({"scripted": {"K": [2, 3], "m": [4, 5, 6], "n_resampled": 3}, "cadence": {"cluster_every": [1, 2, 3, 4, 5, 7], "configs": len(c), "resume": "from every checkpoint"}})
